@@ -58,7 +58,7 @@ def run(ctx):
         if len(v) != 1 or v[0][2] != 'forward':
             continue  # already reported by R09.1
         X = algebra.canon(strip(fwd.call_term(v[0][1], (v[0][0], None))))
-        wf = algebra.word(fwd.return_term())
+        wf = algebra.word(util.inline_calls(prog, fwd.return_term()))
         n_x = sum(1 for a, e in wf if a == X and e == 1)
         ctx.check(n_x == 1, 'R09.2', '%s/forward-word' % w, fwd.where(v[0][0]), fwd.path,
                   'forward is not a product containing the inner forward pose exactly once', found=_sw(wf), detail=_sw(wf))
@@ -71,7 +71,8 @@ def run(ctx):
             if len(vv) != 1:
                 continue
             bi, t, name = vv[0]
-            pose_t = b.op_term(t['args'][1], (bi, None))
+            # straight-line helpers of the wrapper (a `flange(tcp)` shared by the four entry points) are written out
+            pose_t = util.inline_calls(prog, b.op_term(t['args'][1], (bi, None)))
 
             def subst(a, wf=wf):
                 if isinstance(a, tuple) and a[0] == 'param' and a[1] == 2:
@@ -247,12 +248,43 @@ def _base_link_poses(ctx, prog):
                 else:
                     src = util.loop_source(it)
                     r = util.range_of(src) if src is not None else None
-                    if r and util.const_val(r[0]) == 0 and util.const_val(r[1]) == 6 and not [a for a in r[2] if a != 'into_iter']:
+                    if r and util.const_val(r[0]) == 0 and (util.const_val(r[1]) == 6 or _len_of_pose_array(b, r[1], arr, strip(b.call_term(t, (bi, None))))) and not [a for a in r[2] if a != 'into_iter']:
                         idxs |= set(range(6))
                     else:
                         ok = False
+        # ... and each update is base * (that same element)
+        msgs = []
+        for u in direct:
+            node = u[3]
+            at = (u[1], u[2] if u[2] >= 0 else None)
+            val = b.call_term(node, at) if node.get('args') is not None else b.rv_term(node['rv'], at)
+            w = algebra.word(val)
+            lhs = node.get('lhs') or node.get('dest')
+            pr = lhs['proj'][0]
+            want_i = ('const', 'usize', pr['off'], None) if pr['k'] == 'cindex' else strip(b.term_local(pr['local'], at))
+            good = len(w) == 2 and _is_self_fld(w[0][0], 'base') and w[0][1] == 1 and w[1][1] == 1
+            if good:
+                e = strip(w[1][0])
+                good = isinstance(e, tuple) and e[0] == 'idx' and (algebra.canon(strip(e[2])) == algebra.canon(want_i) or (util.const_val(e[2]) is not None and util.const_val(e[2]) == util.const_val(want_i)))
+            if not good:
+                ok = False
+                msgs.append('element update is not base * pose: ' + _sw(w))
         ctx.check(ok and idxs == set(range(6)), 'R09.4', key, b.where(bi), b.path,
-                  'not every link pose is pre-multiplied by base (indices updated: %s)' % sorted(idxs))
+                  '; '.join(msgs) or 'not every link pose is pre-multiplied by base (indices updated: %s)' % sorted(idxs))
+
+
+def _len_of_pose_array(b, t, arr, inner=None):
+    """t == <the six-element pose array local>.len()"""
+    t = strip(t)
+    if not (isinstance(t, tuple) and t[0] == 'call' and cname(t[1]).split('::')[-1] == 'len' and len(t) == 3):
+        return False
+    v = t[2]
+    while isinstance(v, tuple) and v[0] in ('ref', 'deref', 'cast'):
+        v = v[1]
+    six = b.local_ty(arr).rstrip().endswith('; 6]')
+    if inner is not None and strip(v) == inner:
+        return six
+    return isinstance(v, tuple) and v[0] in ('mutb', 'var') and (v[1] if v[0] == 'mutb' else v[2]) == arr and six
 
 
 def _frame_link_poses(ctx, prog):
